@@ -225,8 +225,58 @@ func runMergeRules(c *Ctx) {
 
 	// --- U1: result.Trips only from the range over the trips accumulator, result.Vehicles only from the range over the
 	// vehicles accumulator and from the no-id list; V1: the no-id list only receives vehicles whose ID is nil
-	mrs := findMapRanges([]*ssa.Function{fn})
+	mrs := findMapRanges(c.regionOf(fn))
 	var noIDList ssa.Value
+	// one appended entry of a result list: the append call, where it is, and how to report it
+	type appSite struct {
+		call *ssa.Call
+		pos  string
+	}
+	// appendSites of a list value built by a helper: every append on the chains that end in its returns
+	var chainSites func(v ssa.Value, seen map[ssa.Value]bool, out *[]appSite, d int) bool
+	chainSites = func(v ssa.Value, seen map[ssa.Value]bool, out *[]appSite, d int) bool {
+		if seen[v] {
+			return true
+		}
+		seen[v] = true
+		if d > 40 {
+			return false
+		}
+		switch x := v.(type) {
+		case *ssa.Const:
+			return x.Value == nil
+		case *ssa.MakeSlice:
+			k, isC := constInt(x.Len)
+			return isC && k == 0
+		case *ssa.Phi:
+			for _, ed := range x.Edges {
+				if !chainSites(ed, seen, out, d+1) {
+					return false
+				}
+			}
+			return true
+		case *ssa.Call:
+			if isBuiltin(x, "append") {
+				*out = append(*out, appSite{x, p.ipos(x)})
+				return chainSites(x.Call.Args[0], seen, out, d+1)
+			}
+		case *ssa.UnOp:
+			// a list variable captured by a closure (the sort's comparator) lives in a cell
+			if al, isAl := x.X.(*ssa.Alloc); isAl && x.Op == token.MUL {
+				vals := cellStores(al)
+				if len(vals) == 0 {
+					return true // never assigned: nil
+				}
+				for _, sv := range vals {
+					if !chainSites(sv, seen, out, d+1) {
+						return false
+					}
+				}
+				return true
+			}
+		}
+		return false
+	}
 	for _, b := range fn.Blocks {
 		for _, in := range b.Instrs {
 			st, ok := in.(*ssa.Store)
@@ -241,7 +291,25 @@ func runMergeRules(c *Ctx) {
 			if field != "Trips" && field != "Vehicles" {
 				continue
 			}
-			if !isAppendOf(st.Val, st.Addr) {
+			var sites []appSite
+			if isAppendOf(st.Val, st.Addr) {
+				sites = []appSite{{st.Val.(*ssa.Call), p.ipos(st)}}
+			} else if call, isCall := st.Val.(*ssa.Call); isCall && !call.Call.IsInvoke() && call.Call.StaticCallee() != nil && p.isModuleFn(call.Call.StaticCallee()) && len(call.Call.StaticCallee().Blocks) > 0 {
+				// the list is built by a helper and assigned once
+				h := call.Call.StaticCallee()
+				okChain := true
+				for _, hb := range h.Blocks {
+					if ret, isRet := hb.Instrs[len(hb.Instrs)-1].(*ssa.Return); isRet {
+						if len(ret.Results) != 1 || !chainSites(ret.Results[0], map[ssa.Value]bool{}, &sites, 0) {
+							okChain = false
+						}
+					}
+				}
+				if !okChain || len(sites) == 0 {
+					c.Violated("UNIQ", r.fname, "Realtime."+field+" assigned", p.ipos(st), "Realtime."+field+" is assigned a list whose construction (in "+shortName(h)+") is not a chain of one-entry appends")
+					continue
+				}
+			} else {
 				c.Violated("UNIQ", r.fname, "Realtime."+field+" assigned", p.ipos(st), "Realtime."+field+" is assigned something other than append(itself, one entry)")
 				continue
 			}
@@ -249,34 +317,50 @@ func runMergeRules(c *Ctx) {
 			if field == "Vehicles" {
 				want = vehMap
 			}
-			inRange := false
-			for _, mr := range mrs {
-				if mapCellOf(c, mr.rng.X) == want && mr.loop != nil && mr.loop.Blocks[b] {
-					// appended element is a copy of the range value
-					if el := appendedElem(st.Val); el != nil && derivedFrom(el, map[ssa.Value]bool{mr.val: true}, false) {
-						inRange = true
-					}
-				}
-			}
-			if !inRange && field == "Vehicles" {
-				// the no-id list: a range over a slice variable
-				for _, l := range r.loops {
-					if !l.Blocks[b] {
-						continue
-					}
-					el := appendedElem(st.Val)
-					var ia *ssa.IndexAddr
-					findIA(el, &ia, 0)
-					if ia != nil {
-						if ok, _ := isRangeIndexOver(ia.Index, ia.X); ok {
-							noIDList = ia.X
+			for _, site := range sites {
+				sb := site.call.Block()
+				inRange := false
+				for _, mr := range mrs {
+					if mapCellOf(c, mr.rng.X) == want && mr.loop != nil && mr.loop.Blocks[sb] {
+						// appended element is a copy of the range value
+						if el := appendedElem(site.call); el != nil && derivedFrom(el, map[ssa.Value]bool{mr.val: true}, false) {
 							inRange = true
 						}
 					}
 				}
+				if !inRange && field == "Vehicles" {
+					// the no-id list: a range over a slice variable
+					for _, l := range naturalLoops(sb.Parent()) {
+						if !l.Blocks[sb] {
+							continue
+						}
+						el := appendedElem(site.call)
+						var ia *ssa.IndexAddr
+						findIA(el, &ia, 0)
+						if ia != nil {
+							if ok, _ := isRangeIndexOver(ia.Index, ia.X); ok {
+								noIDList = ia.X
+								inRange = true
+							}
+						}
+					}
+				}
+				c.Check(inRange, "UNIQ", r.fname, "Realtime."+field+" filled from the id-keyed accumulator", site.pos, "one entry per key of the accumulator map (unique by construction)", "an entry is appended to Realtime."+field+" outside the range over the id-keyed accumulator: duplicates of one identifier become possible")
 			}
-			c.Check(inRange, "UNIQ", r.fname, "Realtime."+field+" filled from the id-keyed accumulator", p.ipos(st), "one entry per key of the accumulator map (unique by construction)", "an entry is appended to Realtime."+field+" outside the range over the id-keyed accumulator: duplicates of one identifier become possible")
 		}
+	}
+	// the no-id list handed to a helper: what the (only) caller passes
+	for i := 0; i < 3; i++ {
+		prm, isParam := noIDList.(*ssa.Parameter)
+		if !isParam {
+			break
+		}
+		callers := p.Callers(prm.Parent())
+		idx := paramIndex(prm)
+		if len(callers) != 1 || callers[0].Site == nil || idx < 0 || idx >= len(callers[0].Site.Common().Args) {
+			break
+		}
+		noIDList = callers[0].Site.Common().Args[idx]
 	}
 	if noIDList != nil {
 		// every append into the no-id list chain is guarded by vehicle.ID == nil for the appended vehicle
@@ -607,13 +691,33 @@ func blockList(path []*ssa.BasicBlock) string {
 // ---------------------------------------------------------------- C04
 
 func runLinkRules(c *Ctx) {
+	runLinkAll(c)
 	r := newRtCtx(c)
 	if r == nil {
 		return
 	}
 	p := c.P
 	fn := r.fn
-	mrs := findMapRanges([]*ssa.Function{fn})
+	region := c.regionOf(fn)
+	mrs := findMapRanges(region)
+	// siteBlock: the block of fn in which the instruction takes effect: its own, or that of the one call site (in fn) of
+	// the helper it sits in
+	var siteBlock func(b *ssa.BasicBlock, d int) *ssa.BasicBlock
+	siteBlock = func(b *ssa.BasicBlock, d int) *ssa.BasicBlock {
+		if b.Parent() == fn || d > 3 {
+			return b
+		}
+		var sites []ssa.CallInstruction
+		for _, e := range p.Callers(b.Parent()) {
+			if e.Site != nil {
+				sites = append(sites, e.Site)
+			}
+		}
+		if len(sites) != 1 {
+			return b
+		}
+		return siteBlock(sites[0].Block(), d+1)
+	}
 	var tripsMap, vehMap ssa.Value
 	for _, g := range c.regionOf(fn) {
 		for _, b := range g.Blocks {
@@ -642,7 +746,7 @@ func runLinkRules(c *Ctx) {
 	for b := range r.entity.Blocks {
 		for _, in := range b.Instrs {
 			if mu, ok := in.(*ssa.MapUpdate); ok && mapCellOf(c, mu.Map) != tripsMap && mapCellOf(c, mu.Map) != vehMap {
-				assoc[mu.Map] = append(assoc[mu.Map], mu)
+				assoc[mapCellOf(c, mu.Map)] = append(assoc[mapCellOf(c, mu.Map)], mu)
 			}
 		}
 	}
@@ -676,7 +780,7 @@ func runLinkRules(c *Ctx) {
 				return "vehicle"
 			}
 			// a value of an association table: whatever was stored there
-			if mus, ok := assoc[x.X]; ok {
+			if mus, ok := assoc[mapCellOf(c, x.X)]; ok {
 				k := ""
 				for _, mu := range mus {
 					if _, isPtr := mu.Value.Type().Underlying().(*types.Pointer); isPtr {
@@ -692,7 +796,14 @@ func runLinkRules(c *Ctx) {
 	isAcc = accKind
 	// L1: link stores
 	nLinks := 0
-	for _, b := range fn.Blocks {
+	var regionBlocks []*ssa.BasicBlock
+	for _, g := range region {
+		if g == r.mergeTrip || g == r.mergeVeh || g == r.parseTU || g == r.parseVeh || g == r.parseAlert {
+			continue // the entity parsers and merge functions build / copy whole values: not link stores
+		}
+		regionBlocks = append(regionBlocks, g.Blocks...)
+	}
+	for _, b := range regionBlocks {
 		for _, in := range b.Instrs {
 			st, ok := in.(*ssa.Store)
 			if !ok {
@@ -714,7 +825,8 @@ func runLinkRules(c *Ctx) {
 			tk := isAcc(fa.X, 0)
 			vk := isAcc(st.Val, 0)
 			okObj := tk != "" && vk != ""
-			afterLoop := !r.entity.Blocks[b] && r.entity.Header.Dominates(b)
+			sb := siteBlock(b, 0)
+			afterLoop := sb.Parent() == fn && !r.entity.Blocks[sb] && r.entity.Header.Dominates(sb)
 			key := "link " + field
 			switch {
 			case !okObj:
@@ -796,6 +908,47 @@ func runLinkRules(c *Ctx) {
 	}
 	// also in the entity parsers: no store to these fields other than literals
 	// L2: paired association tables
+	// which table an association goes into is decided by the same test that decides where the vehicle itself goes: the
+	// table that keeps the parsed vehicle (for vehicles without identifier) is written only where vehicle.ID == nil
+	// is known, the id-keyed tables only where vehicle.ID != nil is known
+	for _, mus := range assoc {
+		for _, mu := range mus {
+			_, keepsObject := mu.Value.Type().Underlying().(*types.Pointer)
+			var veh ssa.Value
+			if keepsObject {
+				veh = mu.Value
+			}
+			wantNil := keepsObject
+			okGuard := false
+			for _, ce := range dominatingConds(mu.Block()) {
+				cond, val := normalizeCond(ce.Cond, ce.Val)
+				bo, ok := cond.(*ssa.BinOp)
+				if !ok || !isNilConst(bo.Y) {
+					continue
+				}
+				ld, ok := bo.X.(*ssa.UnOp)
+				if !ok || ld.Op != token.MUL {
+					continue
+				}
+				fa, ok := ld.X.(*ssa.FieldAddr)
+				if !ok || typeName(fa.X.Type()) != "gtfs.Vehicle" || fieldName(fa.X.Type(), fa.Field) != "ID" {
+					continue
+				}
+				if veh != nil && fa.X != veh {
+					continue
+				}
+				isNil := (bo.Op == token.EQL && val) || (bo.Op == token.NEQ && !val)
+				if isNil == wantNil {
+					okGuard = true
+				}
+			}
+			what := "identified vehicles (vehicle.ID != nil)"
+			if wantNil {
+				what = "vehicles without identifier (vehicle.ID == nil)"
+			}
+			c.Check(okGuard, "LINK", r.fname, "association table "+mapName(mu.Map)+" written for "+what, p.ipos(mu), "the update is dominated by the test that also decides between the id-keyed accumulator and the id-less list", "the association is filed by another test than the one that decides where the vehicle itself is kept: a vehicle merged under its identifier gets its link recorded against the throw-away parsed object (or the reverse), and the listed vehicle stays unlinked")
+		}
+	}
 	var tables []ssa.Value
 	for m := range assoc {
 		tables = append(tables, m)
@@ -888,7 +1041,7 @@ func runLinkRules(c *Ctx) {
 			}
 			for b := range mr.loop.Blocks {
 				for _, in := range b.Instrs {
-					if lk, ok := in.(*ssa.Lookup); ok && lk.X == m && lk.Index == mr.key {
+					if lk, ok := in.(*ssa.Lookup); ok && mapCellOf(c, lk.X) == m && lk.Index == mr.key {
 						used = true
 					}
 				}
@@ -901,10 +1054,19 @@ func runLinkRules(c *Ctx) {
 		if mr.loop == nil || (mapCellOf(c, mr.rng.X) != tripsMap && mapCellOf(c, mr.rng.X) != vehMap) {
 			continue
 		}
-		var copyOut *ssa.Store
+		var copyOut ssa.Instruction
 		var links []*ssa.Store
 		for b := range mr.loop.Blocks {
 			for _, in := range b.Instrs {
+				// the copy of the entry appended to a local list (later handed to the result) counts like the append to the
+				// result's own field
+				if call, isCall := in.(*ssa.Call); isCall && isBuiltin(call, "append") {
+					if sl, isSl := call.Type().Underlying().(*types.Slice); isSl && (typeName(sl.Elem()) == "gtfs.Trip" || typeName(sl.Elem()) == "gtfs.Vehicle") {
+						if _, isPtr := sl.Elem().(*types.Pointer); !isPtr && copyOut == nil {
+							copyOut = call
+						}
+					}
+				}
 				st, ok := in.(*ssa.Store)
 				if !ok {
 					continue
@@ -923,7 +1085,7 @@ func runLinkRules(c *Ctx) {
 		ok := copyOut != nil
 		for _, l := range links {
 			// the copy-out must not be able to run before the link in the same iteration
-			if copyOut != nil && !(l.Block() == copyOut.Block() && dominatesInstr(l, copyOut)) {
+			if copyOut != nil && !(l.Block() == copyOut.Block() && instrBefore(l, copyOut)) {
 				if blockReach(copyOut.Block(), map[*ssa.BasicBlock]bool{mr.loop.Header: true}, false)[l.Block()] {
 					ok = false
 				}
@@ -1106,12 +1268,17 @@ func resolveAccLookup(c *Ctx, acc ssa.Value) (m, key ssa.Value) {
 		if len(ret.Results) != 1 {
 			return nil, nil
 		}
-		lk := lookupOf(ret.Results[0])
-		if lk == nil {
+		var lkX, lkIndex ssa.Value
+		if lk := lookupOf(ret.Results[0]); lk != nil {
+			lkX, lkIndex = lk.X, lk.Index
+		} else if _, isCall := ret.Results[0].(*ssa.Call); !isCall {
+			lkX, lkIndex = resolveAccLookup(c, ret.Results[0]) // the comma-ok get-or-create form
+		}
+		if lkX == nil {
 			return nil, nil
 		}
-		m1, ok1 := lk.X.(*ssa.Parameter)
-		k1, ok2 := lk.Index.(*ssa.Parameter)
+		m1, ok1 := lkX.(*ssa.Parameter)
+		k1, ok2 := lkIndex.(*ssa.Parameter)
 		if !ok1 || !ok2 || (mp != nil && (mp != m1 || kp != k1)) {
 			return nil, nil
 		}
